@@ -54,17 +54,24 @@ structure CState where
   queue : List Target := []        -- targets appended and not yet compiled
   deriving Inhabited
 
+/-- the parameter loop of `compileLambda`: parameter i gets register `n + i`; an error as soon as a
+register number reaches `MaxArgs` (fix C21-maxargs-off-by-one: the test was `>`) -/
+def bindParams : List String → Nat → Res (List (String × Nat))
+  | [], _ => .ok []
+  | p :: ps, n =>
+    if n ≥ maxArgs then .error .error
+    else match bindParams ps (n + 1) with
+      | .error e => .error e
+      | .ok rest => .ok ((p, n) :: rest)
+
 /-- `compileLambda`: bind the parameters to fresh registers, enqueue the body; the result is the
 target number standing for the `*lambdaCall` whose pc is filled in later (`Done`) -/
 def compileLambda (frame : Frame) (ps : List String) (body : Expr) (st : CState) : Res (Nat × CState) :=
-  let rec bind : List String → Nat → List (String × Nat) → Res (Nat × List (String × Nat))
-    | [], n, acc => .ok (n, acc.reverse)
-    | p :: ps, n, acc => if n ≥ maxArgs then .error .error else bind ps (n + 1) ((p, n) :: acc)
-  match bind ps st.numArgs [] with
+  match bindParams ps st.numArgs with
   | .error e => .error e
-  | .ok (n', own) =>
+  | .ok own =>
     .ok (st.nTargets,
-      { numArgs := n', nTargets := st.nTargets + 1,
+      { numArgs := st.numArgs + ps.length, nTargets := st.nTargets + 1,
         queue := st.queue ++ [{ body := body, frame := own ++ frame, own := own.map (·.2) }] })
 
 mutual
